@@ -160,19 +160,47 @@ struct TaggedResolver {
     tag: &'static str,
     rng_byte: u8,
     has: [bool; 4],
+    /// per-choice availability masks (bit i = i-th choice of the kind); None = all choices
+    choice_mask: Option<[u8; 3]>,
+}
+
+fn dh_index(c: &DHChoice) -> u8 {
+    match c {
+        DHChoice::Curve25519 => 0,
+        DHChoice::Curve448 => 1,
+        DHChoice::P256 => 2,
+    }
+}
+fn hash_index(c: &HashChoice) -> u8 {
+    match c {
+        HashChoice::SHA256 => 0,
+        HashChoice::SHA512 => 1,
+        HashChoice::Blake2s => 2,
+        HashChoice::Blake2b => 3,
+    }
+}
+fn cipher_index(c: &CipherChoice) -> u8 {
+    match c {
+        CipherChoice::ChaChaPoly => 0,
+        CipherChoice::AESGCM => 1,
+        CipherChoice::XChaChaPoly => 2,
+    }
 }
 impl CryptoResolver for TaggedResolver {
     fn resolve_rng(&self) -> Option<Box<dyn Random>> {
         self.has[0].then(|| Box::new(StubRng(self.rng_byte)) as Box<dyn Random>)
     }
-    fn resolve_dh(&self, _: &DHChoice) -> Option<Box<dyn Dh>> {
-        self.has[1].then(|| Box::new(StubDh(self.tag)) as Box<dyn Dh>)
+    fn resolve_dh(&self, c: &DHChoice) -> Option<Box<dyn Dh>> {
+        let ok = self.has[1] && self.choice_mask.map_or(true, |m| m[0] & (1 << dh_index(c)) != 0);
+        ok.then(|| Box::new(StubDh(self.tag)) as Box<dyn Dh>)
     }
-    fn resolve_hash(&self, _: &HashChoice) -> Option<Box<dyn Hash>> {
-        self.has[2].then(|| Box::new(StubHash(self.tag)) as Box<dyn Hash>)
+    fn resolve_hash(&self, c: &HashChoice) -> Option<Box<dyn Hash>> {
+        let ok = self.has[2] && self.choice_mask.map_or(true, |m| m[1] & (1 << hash_index(c)) != 0);
+        ok.then(|| Box::new(StubHash(self.tag)) as Box<dyn Hash>)
     }
-    fn resolve_cipher(&self, _: &CipherChoice) -> Option<Box<dyn Cipher>> {
-        self.has[3].then(|| Box::new(StubCipher(self.tag)) as Box<dyn Cipher>)
+    fn resolve_cipher(&self, c: &CipherChoice) -> Option<Box<dyn Cipher>> {
+        let ok = self.has[3] && self.choice_mask.map_or(true, |m| m[2] & (1 << cipher_index(c)) != 0);
+        ok.then(|| Box::new(StubCipher(self.tag)) as Box<dyn Cipher>)
     }
 }
 
@@ -203,8 +231,8 @@ fn fallback_table(out: &mut EnumOut) {
             let has = |m: u8| [m & 1 != 0, m & 2 != 0, m & 4 != 0, m & 8 != 0];
             let (ha, hb) = (has(amask), has(bmask));
             let fr = FallbackResolver::new(
-                Box::new(TaggedResolver { tag: "A", rng_byte: 0xAA, has: ha }),
-                Box::new(TaggedResolver { tag: "B", rng_byte: 0xBB, has: hb }),
+                Box::new(TaggedResolver { tag: "A", rng_byte: 0xAA, has: ha, choice_mask: None }),
+                Box::new(TaggedResolver { tag: "B", rng_byte: 0xBB, has: hb, choice_mask: None }),
             );
             let got = fr.resolve_rng().map(|mut r| {
                 let mut b = [0u8; 4];
@@ -231,6 +259,36 @@ fn fallback_table(out: &mut EnumOut) {
                 let got = fr.resolve_cipher(c).map(|d| d.name());
                 push(out, "cipher", format!("{c:?}"), ha[3], hb[3], got);
                 cases += 1;
+            }
+        }
+    }
+    // per-choice availability on ONE resolver instance, every query order of the kind's choices
+    // forwards and backwards: a member that lacks one choice must still be asked for the others
+    for kind in 0..3usize {
+        let nchoices = [3u8, 4, 3][kind];
+        for amask in 0..(1u8 << nchoices) {
+            for bmask in 0..(1u8 << nchoices) {
+                for reverse in [false, true] {
+                    let mut ma = [0xFFu8; 3];
+                    let mut mb = [0xFFu8; 3];
+                    ma[kind] = amask;
+                    mb[kind] = bmask;
+                    let fr = FallbackResolver::new(
+                        Box::new(TaggedResolver { tag: "A", rng_byte: 0xAA, has: [true; 4], choice_mask: Some(ma) }),
+                        Box::new(TaggedResolver { tag: "B", rng_byte: 0xBB, has: [true; 4], choice_mask: Some(mb) }),
+                    );
+                    let order: Vec<u8> = if reverse { (0..nchoices).rev().collect() } else { (0..nchoices).collect() };
+                    for ci in order {
+                        let got = match kind {
+                            0 => fr.resolve_dh(&dhs[ci as usize]).map(|d| d.name()),
+                            1 => fr.resolve_hash(&hashes[ci as usize]).map(|d| d.name()),
+                            _ => fr.resolve_cipher(&ciphers[ci as usize]).map(|d| d.name()),
+                        };
+                        let (a, b) = (amask & (1 << ci) != 0, bmask & (1 << ci) != 0);
+                        push(out, ["dh", "hash", "cipher"][kind], format!("choice#{ci} (same instance, {} order)", if reverse { "reverse" } else { "forward" }), a, b, got);
+                        cases += 1;
+                    }
+                }
             }
         }
     }
